@@ -28,9 +28,15 @@
   * the side conditions are needed: `example`s at the end evaluate the model on flat lists that violate one of
     them and show that the conversion then loses or misplaces a value (no decoder produces such lists).
 
-  Not part of the model (section level, `section_text_to_flat_json`): joining the lines with `\n` and
-  `splitlines()`, the lines of the other sections, and the case of ZERO subsets (the template data then renders
-  as one empty line that the section loop cannot parse; see notes/C09Text.md).
+  * `C09_text_lines_roundtrip` — `'\n'.join(lines)` followed by `splitlines()` gives the lines back under the
+    decidable condition `linesOK` (no line boundary inside a line, last line not empty);
+    `C09_flat_text_line_no_linebreak`: in a flat text line a boundary can only come from the name or the token.
+    An `example` shows the condition is needed: an element NAME with a line feed (potential finding, real-code
+    reproduction notes/C09Text_repro_name_linebreak.py).
+
+  Not part of the model (section level, `section_text_to_flat_json`): the lines of the other sections and the case
+  of ZERO subsets (the template data then renders as one empty line that the section loop cannot parse;
+  potential finding, notes/C09Text_repro_zero_subsets.py).
 -/
 import BufrModel.Lemmas.TextFlat
 import BufrModel.Lemmas.TextTree
@@ -484,6 +490,26 @@ example : ntClassify exEv exHdr = .stop := by decide +kernel
 example : ((wire exT exO >>= fun tree => nestedTextLines exEnv [exO] [tree]) >>=
       fun lines => nestedTextToFlat exEv (lines ++ [exHdr])) =
     .ok ([exHdr], [exO.vals.map PyLit.val]) := by decide +kernel
+
+/-- instances of the layout lemmas: their hypotheses hold (indentation of blanks and dots, a descriptor string
+    not starting with `3`, `ReprOK`) and the lines are classified as stated -/
+example : IndentOK (indent4 ++ dots4 ++ indent4) ∧ (descStr (.plain (exE 12001 12))).head? ≠ some '3' ∧
+    (DDesc.plain (exE 33007 7)).isAssoc = false ∧ (DDesc.assoc 12001 4).isAssoc = true := by
+  refine ⟨indentOK_append (indentOK_append indentOK_indent4 indentOK_dots4) indentOK_indent4, by decide +kernel, rfl, rfl⟩
+
+example :
+    ntClassify exEv (ntValueLine exEnv indent4 false .value (.plain (exE 12001 12)) (.int 280)) = .append (.val (.int 280)) ∧
+    ntClassify exEv (ntValueLine exEnv (indent4 ++ dots4 ++ indent4) true .quality (.plain (exE 33007 7)) (.int 99)) = .skip ∧
+    ntClassify exEv (ntValueLine exEnv (indent4 ++ indent4) true .assoc (.assoc 12001 4) (.int 5)) = .insert (.val (.int 5)) ∧
+    ntClassify exEv (indent4 ++ zpad 6 101000) = .skip ∧ ntClassify exEv (repHeader indent4 1 2) = .skip ∧
+    ntClassify exEv (indent4 ++ zpad 6 301001 ++ ' ' :: "A SEQUENCE NAME 5".toList) = .skip := by decide +kernel
+
+example : 301001 / 100000 = 3 ∧ (zpad 6 301001).head? = some '3' := by decide +kernel
+
+/-- the hypotheses of `C09_flat_text_line_no_linebreak` for a line of the example (and its conclusion, evaluated) -/
+example : (∀ c ∈ flatDescText exEnv (.plain (exE 12001 12)), isLineBreak c = false) ∧
+    (∀ c ∈ flatTok exEnv (.plain (exE 12001 12)) (.int 280), isLineBreak c = false) ∧
+    (∀ c ∈ flatLine exEnv [] 0 (.plain (exE 12001 12)) (.int 280), isLineBreak c = false) := by decide +kernel
 
 /-! ### the side conditions are needed (flat lists no decoder produces) -/
 
